@@ -1,7 +1,7 @@
 (* C12 - whole files: a standard header (any inert extra fields before the six
    standard ones, any declared header size, any filler) followed by the data. *)
 From Coq Require Import String ZArith List Bool Lia.
-From Verif Require Import lib.C12_Py lib.C12_ZList gen.Sphere C12.Model
+From Verif Require Import lib.C12_Py lib.C12_ZList gen.Sphere C12.Model C12.Spec
   C12.ProofsBytes C12.ProofsG711 C12.ProofsLoop C12.Proofs C12.ProofsHeader.
 Import ListNotations.
 Open Scope Z_scope.
@@ -34,12 +34,17 @@ Lemma std_fields_good c size order chans count rate :
 Proof.
   intros. unfold std_fields.
   assert (G : forall s, good_tokenb (asc s) = true -> good_token (asc s)) by (intros; now apply good_tokenb_ok).
-  repeat (apply Forall_app; split); repeat constructor;
-    try (apply G; reflexivity); try (apply dec_good_token; assumption).
-  - destruct order as [o|]; [|constructor]. repeat constructor; try (apply G; reflexivity); try assumption.
-    apply good_token_app; [apply G; reflexivity | apply dec_good_token; apply len_nonneg].
-  - apply good_token_app; [apply G; reflexivity | apply dec_good_token; apply len_nonneg].
-  - destruct c; apply good_tokenb_ok; reflexivity.
+  assert (I : forall k n, good_tokenb (asc k) = true -> 0 <= n -> good_field (asc k, asc "-i", [dec n])).
+  { intros k n Hk Hn. split; [now apply G | split; [apply G; reflexivity|]].
+    constructor; [now apply dec_good_token | constructor]. }
+  assert (S : forall k t, good_tokenb (asc k) = true -> good_token t -> good_field (asc k, asc "-s" ++ dec (len t), [t])).
+  { intros k t Hk Ht. split; [now apply G | split].
+    - apply good_token_app; [apply G; reflexivity | apply dec_good_token; apply len_nonneg].
+    - constructor; [assumption | constructor]. }
+  apply Forall_app; split; [|apply Forall_app; split].
+  - repeat (constructor; [apply I; [reflexivity | assumption]|]). constructor.
+  - destruct order as [o|]; [|constructor]. constructor; [|constructor]. apply S; [reflexivity | assumption].
+  - constructor; [|constructor]. apply S; [reflexivity|]. destruct c; apply good_tokenb_ok; reflexivity.
 Qed.
 
 (* ---- what the field loop makes of them *)
@@ -69,9 +74,6 @@ Lemma coding_name_parsed c old :
   coding_of (coding_name c) coding_prefixes old = Some c /\ contains shorten_marker (coding_name c) = false.
 Proof. destruct c; vm_compute; split; reflexivity. Qed.
 
-Definition std_header (c : coding) (size : Z) (order : option bytes) (chans count rate : Z) : header :=
-  {| h_coding := c; h_size := size; h_count := count; h_rate := rate; h_chans := chans;
-     h_order := order; h_short := false |}.
 
 Lemma std_fields_sem c size order chans count rate :
   0 <= size -> 0 <= chans -> 0 <= count -> 0 <= rate ->
@@ -83,15 +85,13 @@ Proof.
   unfold std_fields. cbn [app fields_sem field_sem join_sp].
   change (bytes_eqb (asc "-i") int_fmt) with true. cbv iota.
   rewrite !py_int_dec by assumption.
-  unfold assign at 1. rewrite K1. cbn [fields_sem field_sem join_sp].
-  change (bytes_eqb (asc "-i") int_fmt) with true. cbv iota. rewrite py_int_dec by assumption.
-  unfold assign at 1. rewrite K2. cbn [fields_sem field_sem join_sp].
-  change (bytes_eqb (asc "-i") int_fmt) with true. cbv iota. rewrite py_int_dec by assumption.
-  unfold assign at 1. rewrite K3. cbn [fields_sem field_sem join_sp].
-  change (bytes_eqb (asc "-i") int_fmt) with true. cbv iota. rewrite py_int_dec by assumption.
+  unfold assign at 1. rewrite K1.
+  unfold assign at 1. rewrite K2.
+  unfold assign at 1. rewrite K3.
   unfold assign at 1. rewrite K4.
+  cbn [v_chans v_count v_rate v_size v_order v_coding v_short hvars0].
   destruct order as [o|]; cbn [app fields_sem field_sem join_sp]; rewrite ?fmt_s_not_int.
-  - unfold assign at 1. rewrite K5. cbn [fields_sem field_sem join_sp]. rewrite fmt_s_not_int.
+  - unfold assign at 1. rewrite K5.
     unfold assign. rewrite K6. cbn [v_chans v_count v_rate v_size v_order v_coding v_short hvars0].
     destruct (coding_name_parsed c None) as [-> ->]. reflexivity.
   - unfold assign. rewrite K6. cbn [v_chans v_count v_rate v_size v_order v_coding v_short hvars0].
@@ -120,33 +120,20 @@ Qed.
 
 (* ---- the standard file *)
 
-Definition std_file (hs : Z) (pre : list fieldspec) (c : coding) (size : Z) (order : option bytes)
-           (chans count rate : Z) (filler data : bytes) : bytes :=
-  sphere_file hs (pre ++ std_fields c size order chans count rate) filler data.
 
 (* side conditions on the header layout *)
-Record layout (hs : Z) (pre : list fieldspec) (c : coding) (size : Z) (order : option bytes)
-       (chans count rate : Z) (filler : bytes) : Prop := {
-  lay_first : hdr_first_read <= hs;
-  lay_min : hdr_min_size <= hs;
-  lay_size_line : len (size_line hs) + len nist_magic + 2 <= hdr_first_read;
-  lay_len : len (header_text hs (pre ++ std_fields c size order chans count rate) ++ filler) = hs;
-  lay_pre_good : Forall good_field pre;
-  lay_pre_inert : Forall inert_field pre;
-  lay_order : match order with Some o => good_token o | None => c <> Pcm end;
-  lay_size : 0 < size; lay_chans : 0 < chans; lay_count : 0 < count; lay_rate : 0 < rate }.
 
 Lemma std_file_header hs pre c size order chans count rate filler data :
   layout hs pre c size order chans count rate filler ->
   read_header (std_file hs pre c size order chans count rate filler data)
   = HOk (std_header c size order chans count rate) data.
 Proof.
-  intros L. destruct L. unfold std_file.
+  intros [L1 L2 L3 L4 L5 L6 L7 L8 L9 L10 L11]. unfold std_file.
   rewrite read_header_written; try assumption.
   - rewrite fields_sem_inert by assumption.
     rewrite std_fields_sem by lia.
     apply std_finish; try assumption.
-    destruct order as [o|]; [destruct lay_order0; assumption | assumption].
+    destruct order as [o|]; [destruct L7; assumption | assumption].
   - apply Forall_app. split; [assumption|].
     apply std_fields_good; try lia. destruct order; [assumption | exact I].
 Qed.
@@ -164,8 +151,8 @@ Example layout_example :
   layout 1024 pre Pcm 2 (Some (asc "01")) 3 2731 16000 (zrepeat 32 (1024 - len txt)).
 Proof.
   cbv zeta. constructor; try (vm_compute; (reflexivity || discriminate)); try lia.
-  - repeat constructor; apply good_tokenb_ok; reflexivity.
-  - repeat constructor. intros H. vm_compute in H. discriminate.
+  - constructor; [|constructor]. split; [|split; [|constructor; [|constructor]]]; apply good_tokenb_ok; reflexivity.
+  - constructor; [|constructor]. split; [vm_compute; reflexivity | intros H; vm_compute in H; discriminate].
   - apply good_tokenb_ok. reflexivity.
 Qed.
 
@@ -176,7 +163,6 @@ Section WholeFile.
   Variables (bs hs : Z) (pre : list fieldspec) (chans count rate : Z) (filler : bytes).
   Hypothesis Hbs : 0 < bs.
 
-  Definition order_name (be : bool) : bytes := if be then asc "10" else asc "01".
 
   Lemma order_name_be be : bytes_eqb (order_name be) [49; 48] = be.
   Proof. destruct be; reflexivity. Qed.
@@ -184,7 +170,6 @@ Section WholeFile.
   Lemma order_name_good be : good_token (order_name be).
   Proof. destruct be; apply good_tokenb_ok; reflexivity. Qed.
 
-  Definition int16_range (v : Z) : Prop := -32768 <= v <= 32767.
 
   Lemma cast_int16_id v : int16_range v -> cast int16 v = v.
   Proof.
@@ -219,11 +204,9 @@ Section WholeFile.
     unfold copy_samples.
     rewrite (pcm_roundtrip_l h None _ HP) with (samples := samples) (extra := extra);
       cbn [h_chans h_count h_short h_size h std_header p_convert p_signed p_be p_dtype]; try lia; try reflexivity.
+    all: try (apply chunk_nonempty; assumption); try (apply chunk_concat; assumption); try assumption.
     - now rewrite map_cast_int16_id.
-    - assumption.
     - eapply Forall_impl; [|exact HR]. unfold in_range, int16_range. cbn. lia.
-    - apply chunk_nonempty. assumption.
-    - apply chunk_concat. assumption.
   Qed.
 
   (* ---- truncated 16-bit PCM: warning, only the complete frames present *)
@@ -246,15 +229,12 @@ Section WholeFile.
     unfold copy_samples.
     rewrite (truncated_l h None _ HP) with (samples := samples) (partial := partial) (n := n);
       cbn [h_chans h_count h_short h_size h std_header p_convert p_signed p_be p_dtype]; try lia; try reflexivity.
+    all: try (apply chunk_nonempty; assumption); try (apply chunk_concat; assumption); try assumption.
     - now rewrite map_cast_int16_id.
-    - assumption.
     - eapply Forall_impl; [|exact HR]. unfold in_range, int16_range. cbn. lia.
-    - apply chunk_nonempty. assumption.
-    - apply chunk_concat. assumption.
   Qed.
 
   (* ---- mu-law / A-law *)
-  Definition byte_range (v : Z) : Prop := 0 <= v < 256.
 
   Lemma law_params c order d :
     c <> Pcm ->
@@ -284,8 +264,7 @@ Section WholeFile.
     unfold copy_samples.
     rewrite (law_outcome _ d _ (law_params c order d Hc)) with (codes := codes) (tail := tail) (n := n);
       cbn [h_chans h_count h_short h_size h_coding std_header p_dtype]; try lia; try reflexivity; try assumption.
-    - apply chunk_nonempty. assumption.
-    - apply chunk_concat. assumption.
+    all: try (apply chunk_nonempty; assumption); try (apply chunk_concat; assumption).
   Qed.
 
   Lemma expand_int16 c v : c <> Pcm -> byte_range v -> int16_range (expand c v).
@@ -310,7 +289,6 @@ Section WholeFile.
   Qed.
 
   (* a 1-byte dtype: the raw codes *)
-  Definition uint8 : dtype := {| dk := KUint; dsize := 1 |}.
 
   Lemma law_file_raw_l c order codes extra :
     c <> Pcm ->
@@ -324,7 +302,7 @@ Section WholeFile.
     cbv zeta. rewrite Z.eqb_refl. cbn [negb uint8 dsize]. change (1 <? 1) with false. cbv iota.
     f_equal. f_equal. rewrite <- (map_id codes) at 2. apply map_ext_in. intros v Hv.
     rewrite Forall_forall in HR. specialize (HR v Hv). unfold byte_range in HR.
-    unfold cast, wrap_unsigned. cbn [dk dsize]. change (2 ^ (8 * 1)) with 256. apply Z.mod_small. lia.
+    unfold cast, wrap_unsigned, uint8. cbn [dk dsize]. change (2 ^ (8 * 1)) with 256. apply Z.mod_small. lia.
   Qed.
 
   (* truncated law data *)
@@ -396,10 +374,50 @@ Proof.
   destruct (_ <? _); [intros H; inversion H; auto|].
   destruct (field_loop _ _); [|intros H; inversion H; auto | discriminate].
   unfold finish_header.
-  destruct (hdr_reject _ _ _ _ _); [intros H; inversion H; auto|].
-  destruct (if hdr_infer_pcm _ _ _ then _ else _); [|intros H; inversion H; auto].
+  destruct (hdr_reject _ _ _ _ _ _); [intros H; inversion H; auto|].
+  destruct (if hdr_infer_pcm _ _ _ _ _ _ then _ else _); [|intros H; inversion H; auto].
   destruct (v_count v); [|intros H; inversion H; auto].
   destruct (v_rate v); [|intros H; inversion H; auto].
   destruct (v_chans v); [|intros H; inversion H; auto].
   destruct (truthy_z _); [discriminate | intros H; inversion H; auto].
 Qed.
+
+(* a declared sample count of zero is rejected *)
+Lemma zero_count_ioerror_l v data : v_count v = Some 0 -> finish_header v data = HErr EIO.
+Proof.
+  intros H. unfold finish_header, hdr_reject.
+  rewrite H; cbn [truthy_z Z.eqb negb]; rewrite ?orb_true_r; reflexivity.
+Qed.
+
+(* the read size is immaterial for a file that is not declared as shorten *)
+Lemma read_size_irrelevant_l h dt data bs1 bs2 :
+  0 < bs1 -> 0 < bs2 -> 1 <= h_chans h -> 0 <= h_count h -> h_short h = false ->
+  copy_samples bs1 h dt data = copy_samples bs2 h dt data.
+Proof.
+  intros H1 H2 Hc Hn Hs. unfold copy_samples, copy_samples_chunks.
+  destruct (params_of h dt) as [P|] eqn:HP; [|reflexivity].
+  destruct (_ <? 0); [reflexivity|].
+  assert (E : p_chans P = h_chans h /\ p_count P = h_count h /\ p_short P = h_short h /\ 0 < p_size P).
+  { unfold params_of in HP. destruct (assoc_z (h_size h) in_types) as [[bits signed]|] eqn:E; [|discriminate].
+    destruct (in_types_sound _ _ _ E). inversion HP; subst P; cbn. auto. }
+  destruct E as (E1 & E2 & E3 & E4).
+  assert (W : wf_params P) by (unfold wf_params; rewrite E1, E2; lia).
+  rewrite !copy_loop_file_l by (auto; congruence). reflexivity.
+Qed.
+
+Lemma actual_read_size_l file dt : sphere_read file dt = sphere_read_bs copy_buf_size file dt /\ 0 < copy_buf_size.
+Proof. split; [reflexivity | vm_compute; reflexivity]. Qed.
+
+(* the witnesses of the two defects found while building this check now decode / fail as they should *)
+Example magic_collision_decodes :
+  let txt := header_text 1024 (std_fields Pcm 2 (Some (asc "01")) 1 6 16000) in
+  sphere_read (std_file 1024 [] Pcm 2 (Some (asc "01")) 1 6 16000 (zrepeat 32 (1024 - len txt))
+                        (encode_items 2 false [27233; 26475; 1; 2; 3; 4])) None
+  = Decoded false int16 [6] (map Some [27233; 26475; 1; 2; 3; 4])
+  /\ take 4 (encode_items 2 false [27233; 26475; 1; 2; 3; 4]) = shorten_magic.
+Proof. vm_compute. split; reflexivity. Qed.
+
+Example size_line_not_integer_ioerror :
+  sphere_read (asc "NIST_1A" ++ [10] ++ asc "   abc" ++ [10] ++ zrepeat 32 1100) None = Error EIO /\
+  sphere_read (asc "NIST_1A" ++ zrepeat 32 1100) None = Error EIO.
+Proof. vm_compute. split; reflexivity. Qed.
